@@ -14,7 +14,7 @@ RULE = ("(a) generator level, through genprobe (the real convert_case / snakify 
         "near misses through from_str; (b) derive level: enums under each of the 16 style strings with dictionary variants, half of "
         "them carrying explicit spellings, through VariantNames, Display, AsRefStr, IntoStaticStr, EnumString and "
         "get_serializations. non-trivial = distinct (identifier or definition, style, observable); a digest block counts once")
-ASSUMPTIONS = ["identifiers are ASCII; heck 0.5.0 is modelled by Model/Heck.v"]
+ASSUMPTIONS = ["the theorems are about ASCII identifiers (heck 0.5.0 is modelled by Model/Heck.v over ASCII bytes); non-ASCII and raw identifiers are compared with a Rust reference on heck itself (Rust-vs-Rust differential, outside the proof)"]
 
 DICT = ["HTTPServer", "XMLHttpRequest2", "Utf8_String", "GreenApple", "Red", "X", "Id", "IOError", "A1b2", "Abc_def", "snake_name",
         "SCREAMING_ONE", "Blue2Go", "darkGray", "Http2_Proxy", "V10", "QRCode", "WiFi", "Z9", "__Private", "Trailing_", "a", "AB", "ABc",
@@ -24,6 +24,11 @@ RAW = ["r#type", "r#Match", "r#loop_Forever", "r#HTTPAsync"]      # raw identifi
 NEAR = ["Snake_Case", "snake-case", "camelcase", "", "PASCALCASE", "kebab-case ", "SCREAMING_KEBAB_CASE", "train-case", "Title_Case",
         "pascal_case", "Mixed_case", "UPPER_CASE", "lower_case", "snake case", "camel-case", "shouty-snake-case"]
 ALPHA = "abAB1_"
+# non-ASCII identifiers (XID): upper / lower / title-case letters of several scripts at the start, in the middle, before and after digits
+# and underscores; letters whose case mapping changes the length (ß, ŉ, İ, ǆ) or depends on position (Σ)
+UNI = ["ÉlanVital", "ÜberMensch", "Ωmega", "élanVital", "straßeName", "Naïve_Bayes", "ДобрыйДень", "добрый_день", "日本語", "Ǆungla", "ǅungla",
+       "ǆungla", "İstanbul", "ıdeal", "ΣίσυφοςΣ", "ΟΔΟΣ", "ßeta", "ŉTest", "Öl2", "Über9Mensch", "Café3", "x1É2", "HTTPÉcole", "éA", "Éa", "aÉ", "ÀB_ÇD",
+       "Ünï_cödé_Mïx42", "Straße", "ÅngströmUnit", "ñandú", "Ñandú9"]
 
 
 def crate_configs(tier):
@@ -73,6 +78,13 @@ def build_corpus(tier, rng):
             c.add_q(k0, "casing", ["convert", S.hx(st), S.hx(ident)], note="alias")
     for s in G.STYLES + NEAR:
         c.add_q(k0, "casing", ["stylename", S.hx(s)], note="table")
+    # (a') identifiers OUTSIDE the model's domain (non-ASCII; raw): the real convert_case / snakify against a Rust reference written
+    # on heck 0.5.0 from the documentation (harness/genprobe `mod reference`): Rust-vs-Rust differential, not a theorem
+    for ident in UNI + RAW:
+        for st in G.STYLES + [None]:
+            c.add_q(k0, "casing", ["convertu", S.hx(st) if st else "-", S.hx(ident)], note="non-ascii")
+        if not ident.startswith("r#"):
+            c.add_q(k0, "casing", ["snakifyu", S.hx(ident)], note="non-ascii")
     # (b) derive level
     for si, st in enumerate(G.STYLES):
         for rep in range(3 if thorough else 1):
@@ -125,6 +137,10 @@ def probe_command(corpus, n, k, kind, args):
         return "snakify %d %s" % (n, args[1])
     if args[0] == "stylename":
         return "style %d %s" % (n, args[1])
+    if args[0] == "convertu":
+        return "caseu %d %s %s" % (n, args[1], args[2])
+    if args[0] == "snakifyu":
+        return "snakifyu %d %s" % (n, args[1])
     return None
 
 
@@ -135,6 +151,11 @@ def render_def(k, it, meta, cfg):
 
 
 def compare(corpus, k, kind, args, note, iobs, mobs, cfg):
+    if kind == "casing" and args[0] in ("convertu", "snakifyu"):
+        parts = dict(p.split("=", 1) for p in iobs.split("|"))
+        ok = parts.get("real") == parts.get("ref") and parts.get("real") not in (None, "panic")
+        return ok, True, None if ok else "real %s, Rust reference %s (identifier %r)" % (
+            S.unhx(parts.get("real", "?")), S.unhx(parts.get("ref", "?")), S.unhx(args[-1]))
     if kind == "casing":
         if args[0] == "sweep" and iobs != mobs:
             a, b = iobs.split(":")[1].split(","), mobs.split(":")[1].split(",")
